@@ -207,4 +207,143 @@ func Set.Remove#atomic
 // Removes of a value alternate starting with an Add, and c equals the final membership.
 lemma C05 alternation_base(c int): c == 0 ==> c == b2i(false)
 lemma C05 alternation_step(m bool, m2 bool, kind int, ok bool, c int, c2 int): (c == b2i(m) && (kind == 1 ==> ok == !m && m2 == true) && (kind == 2 ==> ok == m && m2 == false) && (kind != 1 && kind != 2 ==> m2 == m) && c2 == c + b2i(kind == 1 && ok) - b2i(kind == 2 && ok)) ==> (c2 == b2i(m2) && 0 <= c2 && c2 <= 1 && (kind == 1 && ok ==> c == 0) && (kind == 2 && ok ==> c == 1))
+
+// ---------------------------------------------------------------- C09: keyed mutexes
+// Every *Key(k) method performs exactly two actions: LoadOrStore(k, freshly allocated mutex) on its own key map —
+// which by the Map's (assumed) contract never replaces the mutex of an existing key, so there is one canonical
+// mutex per key, different keys have different (fresh) mutexes — and then exactly the corresponding sync.Mutex /
+// sync.RWMutex operation on the mutex that LoadOrStore RETURNED, whose result (for Try*) is returned unchanged.
+// Per-key mutual exclusion and cross-key independence are then the assumed semantics of sync.Mutex/RWMutex.
+
+func KeyedMutex.LockKey
+  property C09
+  mode atomic
+  opt actions 2
+  requires km != nil
+  rely forall k T :: {has(absmap(addr(km.m)), k)} has(absmap(addr(km.m)), k) ==> absmap(addr(km.m))[k] != nil
+  exit_ensures[map-action]   actkind(0) == K_LoadOrStore && actobj(0) == ref(addr(km.m)) && actarg(0, 0) == key
+  exit_ensures[fresh-mutex]  actarg(0, 1) != nil && fresh(actarg(0, 1))
+  exit_ensures[same-mutex]   actkind(1) == K_Lock && actobj(1) == ref(actres(0, 0))
+
+func KeyedMutex.TryLockKey
+  property C09
+  mode atomic
+  opt actions 2
+  requires km != nil
+  rely forall k T :: {has(absmap(addr(km.m)), k)} has(absmap(addr(km.m)), k) ==> absmap(addr(km.m))[k] != nil
+  exit_ensures[map-action]   actkind(0) == K_LoadOrStore && actobj(0) == ref(addr(km.m)) && actarg(0, 0) == key
+  exit_ensures[fresh-mutex]  actarg(0, 1) != nil && fresh(actarg(0, 1))
+  exit_ensures[same-mutex]   actkind(1) == K_TryLock && actobj(1) == ref(actres(0, 0))
+  exit_ensures[result]       result == actres(1, 0)
+
+func KeyedMutex.UnlockKey
+  property C09
+  mode atomic
+  opt actions 2
+  requires km != nil
+  rely forall k T :: {has(absmap(addr(km.m)), k)} has(absmap(addr(km.m)), k) ==> absmap(addr(km.m))[k] != nil
+  exit_ensures[map-action]   actkind(0) == K_LoadOrStore && actobj(0) == ref(addr(km.m)) && actarg(0, 0) == key
+  exit_ensures[fresh-mutex]  actarg(0, 1) != nil && fresh(actarg(0, 1))
+  exit_ensures[same-mutex]   actkind(1) == K_Unlock && actobj(1) == ref(actres(0, 0))
+
+func KeyedRWMutex.LockKey
+  property C09
+  mode atomic
+  opt actions 2
+  requires km != nil
+  rely forall k T :: {has(absmap(addr(km.m)), k)} has(absmap(addr(km.m)), k) ==> absmap(addr(km.m))[k] != nil
+  exit_ensures[map-action]   actkind(0) == K_LoadOrStore && actobj(0) == ref(addr(km.m)) && actarg(0, 0) == key
+  exit_ensures[fresh-mutex]  actarg(0, 1) != nil && fresh(actarg(0, 1))
+  exit_ensures[same-mutex]   actkind(1) == K_Lock && actobj(1) == ref(actres(0, 0))
+
+func KeyedRWMutex.TryLockKey
+  property C09
+  mode atomic
+  opt actions 2
+  requires km != nil
+  rely forall k T :: {has(absmap(addr(km.m)), k)} has(absmap(addr(km.m)), k) ==> absmap(addr(km.m))[k] != nil
+  exit_ensures[map-action]   actkind(0) == K_LoadOrStore && actobj(0) == ref(addr(km.m)) && actarg(0, 0) == key
+  exit_ensures[fresh-mutex]  actarg(0, 1) != nil && fresh(actarg(0, 1))
+  exit_ensures[same-mutex]   actkind(1) == K_TryLock && actobj(1) == ref(actres(0, 0))
+  exit_ensures[result]       result == actres(1, 0)
+
+func KeyedRWMutex.UnlockKey
+  property C09
+  mode atomic
+  opt actions 2
+  requires km != nil
+  rely forall k T :: {has(absmap(addr(km.m)), k)} has(absmap(addr(km.m)), k) ==> absmap(addr(km.m))[k] != nil
+  exit_ensures[map-action]   actkind(0) == K_LoadOrStore && actobj(0) == ref(addr(km.m)) && actarg(0, 0) == key
+  exit_ensures[fresh-mutex]  actarg(0, 1) != nil && fresh(actarg(0, 1))
+  exit_ensures[same-mutex]   actkind(1) == K_Unlock && actobj(1) == ref(actres(0, 0))
+
+func KeyedRWMutex.RLockKey
+  property C09
+  mode atomic
+  opt actions 2
+  requires km != nil
+  rely forall k T :: {has(absmap(addr(km.m)), k)} has(absmap(addr(km.m)), k) ==> absmap(addr(km.m))[k] != nil
+  exit_ensures[map-action]   actkind(0) == K_LoadOrStore && actobj(0) == ref(addr(km.m)) && actarg(0, 0) == key
+  exit_ensures[fresh-mutex]  actarg(0, 1) != nil && fresh(actarg(0, 1))
+  exit_ensures[same-mutex]   actkind(1) == K_RLock && actobj(1) == ref(actres(0, 0))
+
+func KeyedRWMutex.TryRLockKey
+  property C09
+  mode atomic
+  opt actions 2
+  requires km != nil
+  rely forall k T :: {has(absmap(addr(km.m)), k)} has(absmap(addr(km.m)), k) ==> absmap(addr(km.m))[k] != nil
+  exit_ensures[map-action]   actkind(0) == K_LoadOrStore && actobj(0) == ref(addr(km.m)) && actarg(0, 0) == key
+  exit_ensures[fresh-mutex]  actarg(0, 1) != nil && fresh(actarg(0, 1))
+  exit_ensures[same-mutex]   actkind(1) == K_TryRLock && actobj(1) == ref(actres(0, 0))
+  exit_ensures[result]       result == actres(1, 0)
+
+func KeyedRWMutex.RUnlockKey
+  property C09
+  mode atomic
+  opt actions 2
+  requires km != nil
+  rely forall k T :: {has(absmap(addr(km.m)), k)} has(absmap(addr(km.m)), k) ==> absmap(addr(km.m))[k] != nil
+  exit_ensures[map-action]   actkind(0) == K_LoadOrStore && actobj(0) == ref(addr(km.m)) && actarg(0, 0) == key
+  exit_ensures[fresh-mutex]  actarg(0, 1) != nil && fresh(actarg(0, 1))
+  exit_ensures[same-mutex]   actkind(1) == K_RUnlock && actobj(1) == ref(actres(0, 0))
+
+// ---------------------------------------------------------------- C17: Once1/Once2/Once3
+// sync.Once.Do(g) is ASSUMED atomic { if !done { g(); done = true } } and returns only when done. The fields
+// R1..R3 are protected by the Once: written only inside the Do closure that runs, read only there or after Do
+// has returned in this call (when they are stable and equal to what the one invocation stored). f is invoked
+// exactly when this call's Do closure runs, once; the call returns the stored values.
+
+func Once1.Do
+  property C17
+  mode atomic
+  opt actions 1
+  opt oncefields Once1.R1
+  requires o != nil
+  exit_ensures[do]      actkind(0) == K_OnceDo && actobj(0) == ref(addr(o.once))
+  exit_ensures[calls]   loglen(f) == b2i(actres(0, 0))
+  exit_ensures[result]  result == o.R1
+  exit_ensures[first]   !actres(0, 0) ==> result == oncefirst(o, R1)
+
+func Once2.Do
+  property C17
+  mode atomic
+  opt actions 1
+  opt oncefields Once2.R1 Once2.R2
+  requires o != nil
+  exit_ensures[do]      actkind(0) == K_OnceDo && actobj(0) == ref(addr(o.once))
+  exit_ensures[calls]   loglen(f) == b2i(actres(0, 0))
+  exit_ensures[result]  result0 == o.R1 && result1 == o.R2
+  exit_ensures[first]   !actres(0, 0) ==> result0 == oncefirst(o, R1) && result1 == oncefirst(o, R2)
+
+func Once3.Do
+  property C17
+  mode atomic
+  opt actions 1
+  opt oncefields Once3.R1 Once3.R2 Once3.R3
+  requires o != nil
+  exit_ensures[do]      actkind(0) == K_OnceDo && actobj(0) == ref(addr(o.once))
+  exit_ensures[calls]   loglen(f) == b2i(actres(0, 0))
+  exit_ensures[result]  result0 == o.R1 && result1 == o.R2 && result2 == o.R3
+  exit_ensures[first]   !actres(0, 0) ==> result0 == oncefirst(o, R1) && result1 == oncefirst(o, R2) && result2 == oncefirst(o, R3)
 @*/
